@@ -221,4 +221,76 @@ Proof.
     rewrite map_app in ND. simpl in ND. apply NoDup_remove_2 in ND. rewrite app_nil_r in ND.
     apply ND. apply in_map_iff. exists y. split; auto. unfold akey, atag. now rewrite Ey, Et.
 Qed.
-End Cart.
+
+Lemma lookup_conv q : forall c,
+  lookup q (map conv c) = option_map (fun y : arv => ETok (snd y)) (find (fun y => String.eqb (fst y) q) c).
+Proof.
+  induction c as [|y c IH]; simpl; auto. rewrite (String.eqb_sym q (fst y)).
+  destruct (String.eqb (fst y) q); auto.
+Qed.
+
+Definition covers (c : list arv) : Prop :=
+  forall q, In q items -> exists y, find (fun y => String.eqb (fst y) q) c = Some y.
+
+Lemma cart_out_conv c : covers c -> cart_out items (map conv c) = inl (mk_out (reorder c)).
+Proof.
+  intros H. unfold cart_out, reorder.
+  assert (A : forall its, (forall q, In q its -> In q items) ->
+    forallb (fun kv : string * option elem => match snd kv with Some (ETok _) => true | _ => false end)
+      (map (fun k => (k, lookup k (map conv c))) its) = true /\
+    flat_map (fun kv : string * option elem => match snd kv with Some (ETok t) => [(fst kv, t)] | _ => [] end)
+      (map (fun k => (k, lookup k (map conv c))) its) = map (fun q => getp q c) its).
+  { induction its as [|q its IH]; intros Hs; simpl; auto.
+    destruct (IH (fun q' Hq' => Hs q' (or_intror Hq'))) as [I1 I2].
+    destruct (H q (Hs q (or_introl eq_refl))) as (y & Ey).
+    rewrite lookup_conv, Ey. simpl. rewrite I1, I2. split; auto. f_equal.
+    unfold getp. rewrite Ey. apply find_some in Ey. destruct Ey as [_ Ey]. apply String.eqb_eq in Ey.
+    destruct y as [a b]. simpl in *. now subst. }
+  destruct (A items (fun q Hq => Hq)) as [A1 A2]. rewrite A1, A2. reflexivity.
+Qed.
+
+Lemma cart_outs_conv : forall CS, (forall c, In c CS -> covers c) ->
+  cart_outs items (map (map conv) CS) = (map mk_out (map reorder CS), None).
+Proof.
+  induction CS as [|c CS IH]; intros H; simpl; auto.
+  rewrite cart_out_conv by (apply H; simpl; auto). rewrite IH by (intros; apply H; simpl; auto). reflexivity.
+Qed.
+
+(* members of a configuration drawn from the factors carry the factor's port *)
+Lemma factor_port l' x q y : In y (factor l' x q) -> fst y = q.
+Proof.
+  unfold factor. destruct (String.eqb_spec q (fst x)).
+  - intros [<-|[]]. auto.
+  - intros Hy. apply gsel_in in Hy. tauto.
+Qed.
+
+Lemma cproduct_ports l' x : forall ps c, In c (cproduct (map (factor l' x) ps)) -> map fst c = ps.
+Proof.
+  intros ps c Hc. apply in_cproduct in Hc. revert c Hc.
+  induction ps as [|q ps IH]; intros c Hc; inversion Hc; subst; simpl; auto.
+  f_equal; [eapply factor_port; eauto|]. now apply IH.
+Qed.
+
+Lemma find_in_keys q : forall (c : list arv), In q (map fst c) -> exists y, find (fun y => String.eqb (fst y) q) c = Some y.
+Proof.
+  induction c as [|y c IH]; simpl; [tauto|]. intros H.
+  destruct (String.eqb_spec (fst y) q); [eauto|]. apply IH. destruct H; congruence.
+Qed.
+
+Lemma combine_cart (arrived : list arv) (x : arv) :
+  wfc (arrived ++ [x]) ->
+  combine cc (mkst (tvc arrived) []) (fst x) (snd x) =
+  (mkst (tvc (arrived ++ [x])) [], map mk_out (emitted arrived x), None).
+Proof.
+  intros (NDi & Hports & NDk & Hflat). set (p := fst x). set (k := gk x).
+  assert (Hp : In p items) by (apply (Hports x); rewrite in_app_iff; simpl; auto).
+  destruct (gkeys_spec gk arrived) as [NDt Mt].
+  unfold combine, cc. simpl oitems. rewrite find_inner_ports, names_items.
+  assert (existsb (String.eqb p) items = true) as ->.
+  { apply existsb_exists. exists p. split; auto. apply String.eqb_refl. }
+  unfold combine1. simpl okind. cbv iota. unfold add_to_list.
+  change (elem_tag (ETok (snd x))) with (atag x). simpl otv.
+  assert (Etag : match d with 0 => atag x | S _ => drop_last d (atag x) end = k).
+  { unfold k, gk. destruct d; auto. unfold drop_last. rewrite Nat.sub_0_r, firstn_all.
+    admit_drop0. }
+  rewrite Etag.
